@@ -3,6 +3,7 @@ import StepModel.GenCxxFlags
 import StepModel.GenCxxFlagSpec
 import StepModel.GenCxxRedefSpec
 import StepModel.GenCxxFrame
+import StepModel.GenCxxCalls
 import StepModel.RegistryModel
 import StepModel.Accessors
 /-!
@@ -381,20 +382,63 @@ theorem C02_flags_preserve_order (s : Schema) (n : String) :
     whose FIRST occurrence along the chain (root first, declaration order) is in entity `cr`, and which is either declared in
     a DERIVE clause there or is redeclared in a DERIVE clause later on the chain. -/
 theorem C02_derived_calls_chain {s : Schema} {n : String} {c : List Entity} (h : IsChain s n c)
-    (hf : c.length ≤ fuelOf s) (x cr : String) :
-    (x, cr) ∈ derivedCalls s n ↔ DerivedCall (flatAttrs c) x cr :=
-  derivedCalls_chain h hf x cr
+    (hf : c.length ≤ fuelOf s) (hag : derivedCalls s n = derivedCallsN s n) (x cr : String) :
+    (x, cr) ∈ derivedCalls s n ↔ DerivedCall (flatAttrs c) x cr := by
+  rw [hag]; exact derivedCalls_chain h hf x cr
+
+/-- `populateAttrList` looks for the attribute a redeclaration `SELF\sup.x` means among the attributes of `sup` and its supertypes
+    (regenerated from ordered_attrs.cc; before fix C02-8 it took the first attribute named `x`, and this does not elaborate). -/
+theorem C02_redecl_search_uses_creator : redeclSearchUsesCreator = true := rfl
+
+/-- **Closed form of the `MakeDerived` call list for ANY supertype graph** (several supertypes, shared ancestors, any depth):
+    `populateAttrList` with its search offsets and `dedupList` come down to a recursion over the supertype lists on attribute
+    names, `callInfo`: the FIRST supertype in SUBTYPE OF order that knows the name says who created the attribute and whether it
+    is marked already; the entity's own attributes of that name add their mark or create it.  A call `MakeDerived( x, cr )` is
+    emitted iff `callInfo` answers `(cr, true)`.  Hypotheses: `KeyByName` — in the list of `n` an attribute name has one creator —
+    and `hag` — the creator-aware search finds what the search by name finds (both hold when no two lines of supertypes
+    contribute the same attribute name; the other case is `C02_derived_calls_two_creators_witness`). -/
+theorem C02_derived_calls_closed_form (s : Schema) (n x cr : String) (hk : KeyByName (seg s (fuelOf s) n))
+    (hag : derivedCalls s n = derivedCallsN s n) :
+    (x, cr) ∈ derivedCalls s n ↔ callInfo s (fuelOf s) n x = some (cr, true) := by
+  rw [hag]; exact derivedCalls_closed s n x cr hk
+
+/-- the second-supertype deviation, from the closed form: for `u SUBTYPE OF (c, b)` the first supertype that knows `x` is `c`,
+    whose line does not derive it; for `u SUBTYPE OF (b, c)` it is `b`, which does -/
+theorem C02_derived_calls_first_supertype_decides :
+    let sch (sups : List String) : Schema :=
+      { name := "w2", entities := [
+          { name := "a", attrs := [{ name := "x", type := .base .integer }] },
+          { name := "b", supers := ["a"], attrs := [{ name := "x", redecl := some "a", kind := .derived, type := .base .integer }] },
+          { name := "c", supers := ["a"] },
+          { name := "u", supers := sups }] }
+    callInfo (sch ["c", "b"]) 5 "u" "x" = some ("a", false) ∧ callInfo (sch ["b", "c"]) 5 "u" "x" = some ("a", true) := by
+  decide
+
+/-- two supertypes that both have an attribute `x` (the shape `KeyByName` excludes), `w` derives `SELF\q.x`: the search by name
+    (the code before fix C02-8) calls `MakeDerived( "x", "p" )` — the wrong attribute; the creator-aware search calls
+    `MakeDerived( "x", "q" )`.  Confirmed on the real code (corpus d9). -/
+theorem C02_derived_calls_two_creators_witness :
+    let sch : Schema :=
+      { name := "two", entities := [
+          { name := "p", attrs := [{ name := "x", type := .base .integer }] },
+          { name := "q", attrs := [{ name := "x", type := .base .real }, { name := "y", type := .base .string }] },
+          { name := "u", supers := ["p", "q"], attrs := [{ name := "z", type := .base .integer }] },
+          { name := "w", supers := ["u"], attrs := [{ name := "x", redecl := some "q", kind := .derived, type := .base .real }] }] }
+    derivedCallsN sch "w" = [("x", "p")] ∧ derivedCalls sch "w" = [("x", "q")] := by
+  decide
 
 /-- Which attributes of a fresh instance are flagged `_derive` (written `*`), for every entity with a single-inheritance ancestry
     of any length: exactly those that are redeclared in a DERIVE clause further down the chain — the set Part 21 11.2.6 intends
     (`DerivedCall` with `marksDerived`; an explicit redeclaration does not count since fix C02-7).
     Partial: excluded are instances with an entity of several supertypes in their ancestry, where a derivation on a non-principal
-    path is lost (`C02_flags_second_supertype_witness`); `KeysNodup`: (owner, registered name) tells the attributes apart. -/
+    path is lost (`C02_flags_second_supertype_witness`); `KeysNodup`: (owner, registered name) tells the attributes apart;
+    `CallsAgree`: on the chain's entities the creator-aware search of `populateAttrList` finds what the search by name finds. -/
 theorem C02_flags_derive_chain_partial {s : Schema} {n : String} {c : List Entity} (h : IsChain s n c)
-    (hf : c.length ≤ fuelOf s) (hk : KeysNodup c) (l : List (SA × Bool × Bool)) (hl : instanceFlags s n = some l) :
+    (hf : c.length ≤ fuelOf s) (hk : KeysNodup c) (hag : CallsAgree s c)
+    (l : List (SA × Bool × Bool)) (hl : instanceFlags s n = some l) :
     (∀ a ∈ c.flatMap ownSAs, ∃ d r, (a, d, r) ∈ l) ∧
     ∀ a d r, (a, d, r) ∈ l → (d = true ↔ DerivedCall (flatAttrs c) a.name a.owner) := by
-  have cs := chain_state h (fuelOf s) hf hf hk
+  have cs := chain_state h (fuelOf s) hf hf hk hag
   unfold instanceFlags at hl
   have hkey := C02_push_compares_descriptor
   simp only [hkey, Option.some.injEq] at hl
